@@ -49,6 +49,10 @@ pub fn ffi_call(f: ScryptFn, seed: u64, scn: &Value) -> Value {
            "out_hex":hex(&buf[G..G + std::cmp::min(dklen, 16)])})
 }
 
+fn short_ok_len(dklen: usize) -> bool {
+    dklen >= 8
+}
+
 pub fn scrypt_axiom(seed: u64, scn: &Value) -> Value {
     let c = scn.get("call").expect("call");
     let (pwlen, saltlen) = (ju64(c, "pwlen") as usize, ju64(c, "saltlen") as usize);
@@ -69,11 +73,16 @@ pub fn scrypt_axiom(seed: u64, scn: &Value) -> Value {
     let d_r = kestrel_crypto::scrypt(&pw, &salt, n, r + 1, p, dklen) != base;
     let d_p = kestrel_crypto::scrypt(&pw, &salt, n, r, p + 1, dklen) != base;
     let longer = kestrel_crypto::scrypt(&pw, &salt, n, r, p, dklen + 37);
+    // the password enters only as an HMAC-SHA256 key (RFC 7914 -> PBKDF2 -> HMAC, RFC 2104): a password
+    // longer than the 64-byte block is interchangeable with its digest, one of at most 64 bytes is NOT
+    let digest = kestrel_crypto::sha256(&pw);
+    let with_digest = kestrel_crypto::scrypt(&digest, &salt, n, r, p, dklen);
+    let hmac_norm = if pw.len() > 64 { with_digest == base } else { with_digest != base || !short_ok_len(dklen) };
     let short_ok = dklen >= 8; // one-byte outputs collide with probability 2^-8: only judge >= 8 bytes
     json!({"ev":"scrypt_axiom","id":scn.get("id").cloned().unwrap_or(json!("")),"call":c.clone(),"len_ok":base.len() == dklen,
            "deterministic":base == again,"pw_sensitive":d_pw || !short_ok,"salt_sensitive":d_salt || !short_ok,
            "n_sensitive":d_n || !short_ok,"r_sensitive":d_r || !short_ok,"p_sensitive":d_p || !short_ok,
-           "prefix":longer[..dklen] == base[..]})
+           "prefix":longer[..dklen] == base[..],"hmac_norm":hmac_norm})
 }
 
 /// A structural RFC definition (term over another exported primitive) against the exported function.
@@ -263,6 +272,7 @@ pub fn erase_program(seed: u64, scn: &Value) -> Value {
     let mut released_zero = 0u64;
     let mut not_released = 0u64;
     let mut live_changed = 0u64;
+    let mut leaked_blocks = 0u64;   // released blocks (other than the watched ones) that still held a secret
     alloc::watch_clear_all();
     let mut rng = Rng::derive(seed, &format!("erase{}", scn.get("id").map(|x| x.to_string()).unwrap_or_default()));
     for st in prog {
@@ -270,6 +280,7 @@ pub fn erase_program(seed: u64, scn: &Value) -> Value {
         let i = ju64(st, "slot") as usize;
         match op {
             "construct" => {
+                alloc::capture_start();
                 let obj = match jstr(st, "kind") {
                     "generate" => Obj::Priv(PrivateKey::generate()),
                     "from_bytes" => {
@@ -287,7 +298,10 @@ pub fn erase_program(seed: u64, scn: &Value) -> Value {
                         Obj::Pay(Box::new(PayloadKey::new(&b)))
                     }
                 };
+                alloc::capture_stop();
                 let expect = obj.bytes().to_vec();
+                // anything released while the object was being built must not contain its secret
+                leaked_blocks += alloc::captured_containing(&expect) as u64;
                 alloc::watch(watch_next, obj.bytes().as_ptr(), 32);
                 slots[i] = Some((obj, expect, watch_next));
                 watch_next += 1;
@@ -295,17 +309,23 @@ pub fn erase_program(seed: u64, scn: &Value) -> Value {
             "clone" => {
                 let src = ju64(st, "src") as usize;
                 let (o, e, _) = slots[src].as_ref().expect("clone of empty slot");
+                alloc::capture_start();
                 let c = match o {
                     Obj::Priv(k) => Obj::Priv(k.clone()),
                     Obj::Pay(k) => Obj::Pay(k.clone()),
                 };
+                alloc::capture_stop();
+                leaked_blocks += alloc::captured_containing(e) as u64;
                 alloc::watch(watch_next, c.bytes().as_ptr(), 32);
                 slots[i] = Some((c, e.clone(), watch_next));
                 watch_next += 1;
             }
             "drop" => {
-                let (o, _e, w) = slots[i].take().expect("drop of empty slot");
+                let (o, e, w) = slots[i].take().expect("drop of empty slot");
+                alloc::capture_start();
                 drop(o);
+                alloc::capture_stop();
+                leaked_blocks += alloc::captured_containing(&e) as u64;
                 match alloc::watch_result(w).0 {
                     1 => released_zero += 1,
                     2 => released_dirty += 1,
@@ -335,7 +355,7 @@ pub fn erase_program(seed: u64, scn: &Value) -> Value {
         }
     }
     json!({"ev":"erase","id":scn.get("id").cloned().unwrap_or(json!("")),"steps":prog.len(),"released_zero":released_zero,
-           "released_dirty":released_dirty,"not_released":not_released,"live_changed":live_changed})
+           "released_dirty":released_dirty,"not_released":not_released,"live_changed":live_changed,"leaked_blocks":leaked_blocks})
 }
 
 pub fn run_file(_t: &Templates, seed: u64, inp: &str, outp: &str) {
